@@ -35,7 +35,7 @@ def check(db, rep):
                        'and the order of the execution pipeline.')
     M = ModSets(db)
     # ------------------------------------------------------------------ r1
-    r1 = rep.rule('r1', 'CO-UPDATE: InsertInternal fills all pictogram tables; Erase clears all of them', 2)
+    r1 = rep.rule('r1', 'CO-UPDATE: InsertInternal fills all pictogram tables; Erase clears all of them, each eraser that tests the storage running before the storage entry goes', 3)
     ii = db.fn(OSS + '::InsertInternal')
     need = {
         'identifier': lambda n: (n.get('cs') or '').endswith('EntityGenerator::AddUID'),
@@ -73,6 +73,27 @@ def check(db, rep):
         r1.violation('Erase', '%s:%d' % (er.file, er.line), 'a successful erase leaves the pictogram in: %s' % ', '.join(missing))
     else:
         r1.ok('Erase', 'graph, grid, sources, operations, identifier, storage', '%s:%d' % (er.file, er.line))
+    # an eraser of a table that acts only while the pictogram is still stored (its body, or a callee one call down, tests OSSchema::Contains) is a
+    # no-op once the storage entry is gone: it must run before storage.erase
+    def needs_stored(g, depth=0):
+        if g is None or not g.has_cfg():
+            return False
+        for c in g.calls():
+            if (c.get('cs') or '') == OSS + '::Contains' and any(a['k'] in ('IfStmt', 'ConditionalOperator') for a in g.ancestors(c)):
+                return True
+            if depth < 1 and (c.get('cs') or '').startswith(O) and needs_stored(db.fn(c['cs'], required=False), depth + 1):
+                return True
+        return False
+    st_sites = [p for p, n in call_sites(er, need_e['storage'])]
+    late = []
+    for label in ('graph', 'grid', 'sources', 'operations'):
+        for p, n in call_sites(er, need_e[label]):
+            if needs_stored(db.fn(n['cs'], required=False)) and st_sites and paths_avoiding(er, st_sites, [], [(p, '')]):
+                late.append((label, n))
+    if late:
+        r1.violation('Erase:order', er.loc(late[0][1]), 'the %s table is cleared after the storage entry is erased, but its eraser acts only while the pictogram is still stored (it tests Contains): the call does nothing and the erased pictogram stays in the %s table' % (late[0][0], late[0][0]))
+    else:
+        r1.ok('Erase:order', 'every eraser that needs the pictogram to be stored runs before storage.erase', '%s:%d' % (er.file, er.line))
 
     # ------------------------------------------------------------------ r2
     r2 = rep.rule('r2', 'GUARDS: refusals of InsertOperation / Erase precede every mutation; an operation gets exactly its two operands as parents', 3)
